@@ -189,7 +189,7 @@ func (p *Pred) Eval(dims map[string]interface{}) (res bool, ok bool) {
 // FieldDef is a table field in structured form.
 type FieldDef struct {
 	Name string
-	Kind string // sum count min max avg wavg bare add sub muldivcount ifsum avgbounded sumbounded
+	Kind string // sum count min max avg wavg bare add sub muldivcount ifsum ifsub subif ifmaxdivcount avgbounded sumbounded
 	A, B string
 	Cond *Pred
 	Lo   float64
@@ -217,6 +217,12 @@ func (f *FieldDef) SQL() string {
 		e = "SUM(" + f.A + ") * SUM(" + f.B + ") / COUNT(" + f.B + ")"
 	case "ifsum":
 		e = "IF(" + f.Cond.SQL() + ", SUM(" + f.A + "))"
+	case "ifsub":
+		e = "IF(" + f.Cond.SQL() + ", SUM(" + f.A + ")) - SUM(" + f.B + ")"
+	case "subif":
+		e = "SUM(" + f.B + ") - IF(" + f.Cond.SQL() + ", SUM(" + f.A + "))"
+	case "ifmaxdivcount":
+		e = "IF(" + f.Cond.SQL() + ", MAX(" + f.A + ")) / COUNT(" + f.B + ")"
 	case "avgbounded":
 		e = fmt.Sprintf("AVG(BOUNDED(%s, %v, %v))", f.A, f.Lo, f.Hi)
 	case "sumbounded":
@@ -252,6 +258,16 @@ func (a *Acc) Add(f *FieldDef, vals map[string]float64, dims map[string]interfac
 		}
 		if !in {
 			return
+		}
+	case "ifsub", "subif", "ifmaxdivcount":
+		// the condition gates only the first aggregate; the other operand sees every accepted point
+		in, ok := f.Cond.Eval(dims)
+		if !ok {
+			a.OutOfDomain = true
+			return
+		}
+		if !in {
+			okA = false
 		}
 	case "avgbounded", "sumbounded":
 		if okA && (va < f.Lo || va > f.Hi) {
@@ -337,8 +353,15 @@ func (a *Acc) Value(f *FieldDef) (val float64, set bool, dontCare bool) {
 		return a.SumAW / a.SumW, true, false
 	case "add":
 		return a.SumA + a.SumB, a.NA > 0 || a.NB > 0, false
-	case "sub":
+	case "sub", "ifsub":
 		return a.SumA - a.SumB, a.NA > 0 || a.NB > 0, false
+	case "subif":
+		return a.SumB - a.SumA, a.NA > 0 || a.NB > 0, false
+	case "ifmaxdivcount":
+		if a.NA == 0 || a.CntB == 0 {
+			return 0, a.NA > 0 || a.NB > 0, true
+		}
+		return a.MaxA / a.CntB, true, false
 	case "muldivcount":
 		if a.CntB == 0 {
 			return 0, a.NA > 0 || a.NB > 0, true
